@@ -1,5 +1,7 @@
 import Hgxv.Proofs.C14
-/-! `HOADmodel`: every emitted record is well-formed, for every recording the model accepts. -/
+/-! `HOADmodel`: every emitted record is well-formed, for every recording on which the model returns, WHATEVER the
+lengths of the activity vectors; entries of a vector beyond position `N` are never read; a vector shorter than `N`
+never yields a result (the routine raises); vectors of length `≥ N` and orders `≤ N` never raise. -/
 namespace C14
 
 /-- a well-formed hyperlink of order `order` at time `t` -/
@@ -23,93 +25,288 @@ theorem hoadEmit_spec (N order t i : Nat) (s : List Nat) (hi : i < N) (hs : samp
     · exact hi
   · simp at hr
 
-theorem hoadNode_spec (N order : Nat) (act : Rat) (t i : Nat) (d : HoadDraw) (out : List (Nat × Edge))
-    (h : hoadNode N order act t i d = some out) (hi : i < N) : ∀ r ∈ out, r.1 = t ∧ GoodLink N order r := by
+theorem hoadNode_spec (N order : Nat) (act : Rat) (t i : Nat) (d : HoadDraw) (ds : List HoadDraw)
+    (out : List (Nat × Edge))
+    (h : hoadNode N order act t i d ds = .done out) (hi : i < N) : ∀ r ∈ out, r.1 = t ∧ GoodLink N order r := by
   unfold hoadNode at h
   split at h
   · split at h
-    · rename_i hc
-      simp only [Bool.and_eq_true] at hc
-      cases h
-      exact hoadEmit_spec N order t i d.sample hi hc.2
-    · cases h
+    · split at h <;> cases h
+    · split at h
+      · rename_i hc
+        simp only [Bool.and_eq_true] at hc
+        cases h
+        exact hoadEmit_spec N order t i d.sample hi hc.2
+      · cases h
   · split at h
     · cases h
     · cases h; simp
 
-theorem hoadNodes_spec (N order t : Nat) : ∀ (acts : List Rat) (i : Nat) (ds : List HoadDraw)
+/-- a node raises only when its order exceeds `N` -/
+theorem hoadNode_raised (N order : Nat) (act : Rat) (t i : Nat) (d : HoadDraw) (ds r : List HoadDraw)
+    (h : hoadNode N order act t i d ds = .raised r) : N < order := by
+  unfold hoadNode at h
+  split at h
+  · split at h
+    · assumption
+    · split at h <;> cases h
+  · split at h <;> cases h
+
+theorem hoadNodes_spec (N order t : Nat) (acts : List Rat) : ∀ (k i : Nat) (ds : List HoadDraw)
     (out : List (Nat × Edge)) (rest : List HoadDraw),
-    hoadNodes N order t acts i ds = some (out, rest) → i + acts.length ≤ N →
+    hoadNodes N order t acts k i ds = .done (out, rest) → i + k ≤ N →
     ∀ r ∈ out, r.1 = t ∧ GoodLink N order r := by
-  intro acts
-  induction acts with
-  | nil => intro i ds out rest h _; simp [hoadNodes] at h; simp [h.1]
-  | cons a acts ih =>
+  intro k
+  induction k with
+  | zero => intro i ds out rest h _; simp only [hoadNodes, Run.done.injEq, Prod.mk.injEq] at h; simp [← h.1]
+  | succ k ih =>
     intro i ds out rest h hlen
-    cases ds with
-    | nil => simp [hoadNodes] at h
-    | cons d ds =>
-      simp only [hoadNodes] at h
+    simp only [hoadNodes] at h
+    split at h
+    · cases h
+    · rename_i a ha
       split at h
       · cases h
-      · rename_i o1 h1
+      · rename_i d ds'
         split at h
         · cases h
-        · rename_i outs rest' h2
-          cases h
-          intro r hr
-          simp only [List.length_cons] at hlen
-          rcases List.mem_append.mp hr with hr | hr
-          · exact hoadNode_spec N order a t i d o1 h1 (by omega) r hr
-          · exact ih (i + 1) ds outs _ h2 (by omega) r hr
+        · cases h
+        · rename_i o1 h1
+          split at h
+          · rename_i outs rest' h2
+            cases h
+            intro r hr
+            rcases List.mem_append.mp hr with hr | hr
+            · exact hoadNode_spec N order a t i d ds' o1 h1 (by omega) r hr
+            · exact ih (i + 1) ds' outs _ h2 (by omega) r hr
+          · cases h
+          · cases h
 
-theorem hoadTimes_spec (N order : Nat) (acts : List Rat) (hlen : acts.length ≤ N) :
+theorem hoadTimes_spec (N order : Nat) (acts : List Rat) :
     ∀ (steps t : Nat) (ds : List HoadDraw) (out : List (Nat × Edge)) (rest : List HoadDraw),
-    hoadTimes N order acts steps t ds = some (out, rest) →
+    hoadTimes N order acts steps t ds = .done (out, rest) →
     ∀ r ∈ out, t ≤ r.1 ∧ r.1 < t + steps ∧ GoodLink N order r := by
   intro steps
   induction steps with
-  | zero => intro t ds out rest h; simp [hoadTimes] at h; simp [h.1]
+  | zero => intro t ds out rest h; simp only [hoadTimes, Run.done.injEq, Prod.mk.injEq] at h; simp [← h.1]
   | succ steps ih =>
     intro t ds out rest h
     simp only [hoadTimes] at h
     split at h
     · cases h
+    · cases h
     · rename_i o1 r1 h1
       split at h
-      · cases h
       · rename_i outs rest' h2
         cases h
         intro r hr
         rcases List.mem_append.mp hr with hr | hr
-        · have := hoadNodes_spec N order t acts 0 ds o1 r1 h1 (by omega) r hr
+        · have := hoadNodes_spec N order t acts N 0 ds o1 r1 h1 (by omega) r hr
           exact ⟨by omega, by omega, this.2⟩
         · have := ih (t + 1) r1 outs _ h2 r hr
           exact ⟨by omega, by omega, this.2.2⟩
+      · cases h
+      · cases h
 
 theorem hoadOrders_spec (N time : Nat) : ∀ (acts : List (Nat × List Rat)) (ds : List HoadDraw)
     (out : List (Nat × Edge)) (rest : List HoadDraw),
-    (∀ oa ∈ acts, oa.2.length = N) → hoadOrders N time acts ds = some (out, rest) →
+    hoadOrders N time acts ds = .done (out, rest) →
     ∀ r ∈ out, r.1 < time ∧ ∃ oa ∈ acts, GoodLink N oa.1 r := by
   intro acts
   induction acts with
-  | nil => intro ds out rest _ h; simp [hoadOrders] at h; simp [h.1]
+  | nil => intro ds out rest h; simp only [hoadOrders, Run.done.injEq, Prod.mk.injEq] at h; simp [← h.1]
   | cons oa acts ih =>
-    intro ds out rest hl h
+    intro ds out rest h
     obtain ⟨order, av⟩ := oa
     simp only [hoadOrders] at h
     split at h
     · cases h
+    · cases h
     · rename_i o1 r1 h1
       split at h
-      · cases h
       · rename_i outs rest' h2
         cases h
         intro r hr
         rcases List.mem_append.mp hr with hr | hr
-        · have := hoadTimes_spec N order av (by rw [hl (order, av) (by simp)]; exact Nat.le_refl _) time 0 ds o1 r1 h1 r hr
+        · have := hoadTimes_spec N order av time 0 ds o1 r1 h1 r hr
           exact ⟨by omega, (order, av), by simp, this.2.2⟩
-        · obtain ⟨h3, oa', hoa', h4⟩ := ih r1 outs _ (fun oa' h' => hl oa' (by simp [h'])) h2 r hr
+        · obtain ⟨h3, oa', hoa', h4⟩ := ih r1 outs _ h2 r hr
           exact ⟨h3, oa', by simp [hoa'], h4⟩
+      · cases h
+      · cases h
+
+/-! ### entries beyond position `N` are never read -/
+
+theorem hoadNodes_take (N order t : Nat) (acts : List Rat) : ∀ (k i : Nat) (ds : List HoadDraw), i + k ≤ N →
+    hoadNodes N order t (acts.take N) k i ds = hoadNodes N order t acts k i ds := by
+  intro k
+  induction k with
+  | zero => intro i ds _; simp [hoadNodes]
+  | succ k ih =>
+    intro i ds hlen
+    have hget : (acts.take N)[i]? = acts[i]? := by
+      rw [List.getElem?_take]; simp; omega
+    simp only [hoadNodes, hget]
+    cases acts[i]? with
+    | none => rfl
+    | some a =>
+      cases ds with
+      | nil => rfl
+      | cons d ds => simp only [ih (i + 1) ds (by omega)]
+
+theorem hoadTimes_take (N order : Nat) (acts : List Rat) : ∀ (steps t : Nat) (ds : List HoadDraw),
+    hoadTimes N order (acts.take N) steps t ds = hoadTimes N order acts steps t ds := by
+  intro steps
+  induction steps with
+  | zero => intro t ds; simp [hoadTimes]
+  | succ steps ih =>
+    intro t ds
+    simp only [hoadTimes, hoadNodes_take N order t acts N 0 ds (by omega)]
+    cases hoadNodes N order t acts N 0 ds with
+    | stuck => rfl
+    | raised r => rfl
+    | done p => obtain ⟨out, rest⟩ := p; simp only [ih]
+
+theorem hoadOrders_take (N time : Nat) : ∀ (acts : List (Nat × List Rat)) (ds : List HoadDraw),
+    hoadOrders N time (acts.map (fun oa => (oa.1, oa.2.take N))) ds = hoadOrders N time acts ds := by
+  intro acts
+  induction acts with
+  | nil => intro ds; simp [hoadOrders]
+  | cons oa acts ih =>
+    intro ds
+    obtain ⟨order, av⟩ := oa
+    simp only [List.map_cons, hoadOrders, hoadTimes_take]
+    cases hoadTimes N order av time 0 ds with
+    | stuck => rfl
+    | raised r => rfl
+    | done p => obtain ⟨out, rest⟩ := p; simp only [ih]
+
+/-! ### a vector shorter than `N` never yields a result; long enough vectors never raise -/
+
+theorem hoadNodes_short (N order t : Nat) (acts : List Rat) : ∀ (k i : Nat) (ds : List HoadDraw),
+    i ≤ acts.length → acts.length < i + k → ∀ p, hoadNodes N order t acts k i ds ≠ .done p := by
+  intro k
+  induction k with
+  | zero => intro i ds h1 h2; omega
+  | succ k ih =>
+    intro i ds h1 h2 p h
+    simp only [hoadNodes] at h
+    split at h
+    · cases h
+    · rename_i a ha
+      have hi : i < acts.length := by
+        apply Decidable.byContradiction; intro hc
+        have : acts[i]? = none := List.getElem?_eq_none (by omega)
+        rw [this] at ha; cases ha
+      split at h
+      · cases h
+      · rename_i d ds'
+        split at h
+        · cases h
+        · cases h
+        · split at h
+          · rename_i outs rest' h2'
+            exact ih (i + 1) ds' (by omega) (by omega) _ h2'
+          · cases h
+          · cases h
+
+theorem hoadTimes_short (N order : Nat) (acts : List Rat) (hlen : acts.length < N) :
+    ∀ (steps t : Nat) (ds : List HoadDraw), 0 < steps → ∀ p, hoadTimes N order acts steps t ds ≠ .done p := by
+  intro steps t ds hs p h
+  cases steps with
+  | zero => omega
+  | succ steps =>
+    simp only [hoadTimes] at h
+    split at h
+    · cases h
+    · cases h
+    · rename_i o1 r1 h1
+      exact hoadNodes_short N order t acts N 0 ds (by omega) (by omega) _ h1
+
+theorem hoadOrders_short (N time : Nat) (ht : 0 < time) : ∀ (acts : List (Nat × List Rat)) (ds : List HoadDraw),
+    (∃ oa ∈ acts, oa.2.length < N) → ∀ p, hoadOrders N time acts ds ≠ .done p := by
+  intro acts
+  induction acts with
+  | nil => intro ds h; simp at h
+  | cons oa acts ih =>
+    intro ds hex p h
+    obtain ⟨order, av⟩ := oa
+    simp only [hoadOrders] at h
+    split at h
+    · cases h
+    · cases h
+    · rename_i o1 r1 h1
+      split at h
+      · rename_i outs rest' h2
+        obtain ⟨oa', hoa', hl⟩ := hex
+        rcases List.mem_cons.mp hoa' with rfl | hm
+        · exact hoadTimes_short N order av hl time 0 ds ht _ h1
+        · exact ih r1 ⟨oa', hm, hl⟩ _ h2
+      · cases h
+      · cases h
+
+theorem hoadNodes_no_raise (N order t : Nat) (acts : List Rat) (hlen : N ≤ acts.length) (ho : order ≤ N) :
+    ∀ (k i : Nat) (ds : List HoadDraw), i + k ≤ N → ∀ r, hoadNodes N order t acts k i ds ≠ .raised r := by
+  intro k
+  induction k with
+  | zero => intro i ds _ r h; simp [hoadNodes] at h
+  | succ k ih =>
+    intro i ds hik r h
+    simp only [hoadNodes] at h
+    split at h
+    · rename_i hn
+      have : i < acts.length := by omega
+      rw [List.getElem?_eq_getElem this] at hn; cases hn
+    · split at h
+      · cases h
+      · rename_i d ds'
+        split at h
+        · cases h
+        · rename_i r' h1
+          have := hoadNode_raised N order _ t i d ds' r' h1
+          omega
+        · split at h
+          · cases h
+          · rename_i r' h2
+            exact ih (i + 1) ds' (by omega) r' h2
+          · cases h
+
+theorem hoadTimes_no_raise (N order : Nat) (acts : List Rat) (hlen : N ≤ acts.length) (ho : order ≤ N) :
+    ∀ (steps t : Nat) (ds : List HoadDraw) r, hoadTimes N order acts steps t ds ≠ .raised r := by
+  intro steps
+  induction steps with
+  | zero => intro t ds r h; simp [hoadTimes] at h
+  | succ steps ih =>
+    intro t ds r h
+    simp only [hoadTimes] at h
+    split at h
+    · cases h
+    · rename_i r' h1
+      exact hoadNodes_no_raise N order t acts hlen ho N 0 ds (by omega) r' h1
+    · split at h
+      · cases h
+      · rename_i r' h2
+        exact ih _ _ r' h2
+      · cases h
+
+theorem hoadOrders_no_raise (N time : Nat) : ∀ (acts : List (Nat × List Rat)) (ds : List HoadDraw),
+    (∀ oa ∈ acts, N ≤ oa.2.length ∧ oa.1 ≤ N) → ∀ r, hoadOrders N time acts ds ≠ .raised r := by
+  intro acts
+  induction acts with
+  | nil => intro ds _ r h; simp [hoadOrders] at h
+  | cons oa acts ih =>
+    intro ds hall r h
+    obtain ⟨order, av⟩ := oa
+    simp only [hoadOrders] at h
+    have h0 := hall (order, av) (by simp)
+    split at h
+    · cases h
+    · rename_i r' h1
+      exact hoadTimes_no_raise N order av h0.1 h0.2 time 0 ds r' h1
+    · split at h
+      · cases h
+      · rename_i r' h2
+        exact ih _ (fun oa' h' => hall oa' (by simp [h'])) r' h2
+      · cases h
 
 end C14
